@@ -838,3 +838,11 @@ seeded('C16', 'SI product derives its unit text with hat and dot swapped', 'R16.
        [('units', "            ret._unit = ret.siunit(True, '', '.') \n", "            ret._unit = ret.siunit(True, '.', '') \n")], key='unit-text-format')
 benign('C16', 'unit text derived with keyword arguments',
        [('units', "        self._unit = self.siunit(True, '', '.')", "        self._unit = self.siunit(div=True, dot='.', hat='')")])
+seeded('C15', 'Poisson draw starts counting at zero with the post-test loop', 'R14.5',
+       [('distributions', "        s = 1.0\n        x = -1\n        while True:\n            s *= self._stream.next_float()", 
+         "        s = 1.0\n        x = 0\n        while True:\n            s *= self._stream.next_float()")], key='minimum-never-drawn')
+benign('C15', 'Poisson draw as a pre-test loop',
+       [('distributions', "        s = 1.0\n        x = -1\n        while True:\n            s *= self._stream.next_float()\n            x += 1\n            if s <= self._expl:\n                break\n        return x\n",
+         "        s = self._stream.next_float()\n        x = 0\n        while s > self._expl:\n            s *= self._stream.next_float()\n            x += 1\n        return x\n")])
+seeded('C05', 'cleanup falls back to the default error strategy', 'R5.7',
+       [('simulator', "        self._run_state = RunState.NOT_INITIALIZED\n", "        self._run_state = RunState.NOT_INITIALIZED\n        self._error_strategy = ErrorStrategy.WARN_AND_PAUSE\n")], key='resets-_error_strategy')
